@@ -37,7 +37,7 @@ pub const POOL: [(u8, u8, u8, u8, u8, u32, u8); 10] = [
     (1, 0, 0, 8, 1, 65001, 1), // RD instance, distinguisher 8
 ];
 
-fn pph(i: usize) -> enc::PerPeerHeader {
+pub fn pph(i: usize) -> enc::PerPeerHeader {
     let (t, l, o, d, a, s, b) = POOL[i];
     let pt = match t { 0 => PeerType::GlobalInstance, 1 => PeerType::RdInstance, 2 => PeerType::LocalInstance, _ => PeerType::LocalRibInstance };
     enc::PerPeerHeader {
@@ -83,7 +83,7 @@ pub fn update_bytes(af: u32, a: u32, ps: &str, wf: u32, ws: &str) -> Bytes {
     enc::mk_bgp_update(&wd, &ann, &[])
 }
 
-fn eor_bytes(f: u32) -> Bytes {
+pub fn eor_bytes(f: u32) -> Bytes {
     if f == 0 {
         return enc::mk_bgp_update(&enc::Prefixes::default(), &enc::Announcements::None, &[]);
     }
@@ -93,7 +93,7 @@ fn eor_bytes(f: u32) -> Bytes {
     Bytes::from(v)
 }
 
-fn malformed_update() -> Bytes {
+pub fn malformed_update() -> Bytes {
     // an UPDATE whose NLRI claims a /33 IPv4 prefix
     let mut v = vec![0xffu8; 16];
     let body: Vec<u8> = vec![0, 0, 0, 0, 33, 10, 1, 2, 3, 4];
@@ -157,7 +157,11 @@ impl World {
 }
 
 fn first_hop(meta: &rotonda::payload::RotondaPaMap) -> u32 {
-    let v = serde_json::to_value(meta).unwrap_or(serde_json::Value::Null);
+    first_hop_value(&serde_json::to_value(meta).unwrap_or(serde_json::Value::Null))
+}
+
+/// the same on the JSON rendering of a route's attributes (what the RIB HTTP API answers)
+pub fn first_hop_value(v: &serde_json::Value) -> u32 {
     // [{"origin":..},{"asPath":["AS101","AS200"]},...]
     if let Some(arr) = v.as_array() {
         for item in arr {
